@@ -8,7 +8,7 @@ use crate::rng::{fnv_str, mix, Rng};
 use crate::{Args, Report};
 use assets_manager::AssetCache;
 use serde_json::json;
-use std::collections::BTreeMap;
+use std::collections::{BTreeMap, BTreeSet};
 use std::sync::atomic::{AtomicBool, AtomicU64, AtomicUsize, Ordering::SeqCst};
 
 #[derive(Clone, Copy, Debug, PartialEq, Eq, Hash, PartialOrd, Ord)]
@@ -282,7 +282,7 @@ fn stress_round(rep: &mut Report, rng: &mut Rng, round: usize, lin: &mut (u64, u
                         let mut out: Vec<Ev> = Vec::with_capacity(plan.len());
                         ready.fetch_add(1, SeqCst);
                         while !go.load(SeqCst) {
-                            std::hint::spin_loop();
+                            crate::util::pause();
                             #[cfg(miri)]
                             std::thread::yield_now();
                         }
@@ -534,6 +534,92 @@ fn long_lived(rep: &mut Report, rng: &mut Rng, round: usize) {
     }
 }
 
+
+/// A value whose destructor panics while it is armed.
+struct Bomb(u64);
+static BOMBS_ARMED: AtomicBool = AtomicBool::new(false);
+static BOMBS_WENT_OFF: AtomicUsize = AtomicUsize::new(0);
+
+impl assets_manager::asset::Storable for Bomb {}
+impl assets_manager::asset::NotHotReloaded for Bomb {}
+
+impl Drop for Bomb {
+    fn drop(&mut self) {
+        if BOMBS_ARMED.load(SeqCst) && !std::thread::panicking() {
+            BOMBS_WENT_OFF.fetch_add(1, SeqCst);
+            panic!("vh: destructor of a value that lost an insertion race");
+        }
+    }
+}
+
+/// The loser of a creation race is dropped by the cache; if its destructor panics, that call
+/// panics - and nothing else: the winner stays, the key and every other key stay usable from
+/// every thread.
+fn loser_destructor_panics(rep: &mut Report, rounds: usize) {
+    crate::util::quiet_panics(true);
+    for round in 0..rounds {
+        rep.eval();
+        let mem = Mem::new("c01b", Hot::No);
+        let cache = crate::util::with_cpus(1, || AssetCache::with_source(mem.clone()));
+        let go = AtomicBool::new(false);
+        BOMBS_ARMED.store(true, SeqCst);
+        let before = BOMBS_WENT_OFF.load(SeqCst);
+        let nthreads = 4;
+        let outcomes: Vec<Result<u64, ()>> = std::thread::scope(|s| {
+            let hs: Vec<_> = (0..nthreads)
+                .map(|t| {
+                    let (cache, go) = (&cache, &go);
+                    s.spawn(move || {
+                        while !go.load(SeqCst) {
+                            crate::util::pause();
+                        }
+                        std::panic::catch_unwind(std::panic::AssertUnwindSafe(|| cache.get_or_insert::<Bomb>("k", Bomb(t as u64)).read().0)).map_err(|_| ())
+                    })
+                })
+                .collect();
+            go.store(true, SeqCst);
+            hs.into_iter().map(|h| h.join().unwrap_or(Err(()))).collect()
+        });
+        let went_off = BOMBS_WENT_OFF.load(SeqCst) - before;
+        // afterwards: the key and 40 other keys (4 shards: every shard is hit) from two threads
+        let usable = std::thread::scope(|s| {
+            let hs: Vec<_> = (0..2)
+                .map(|t| {
+                    let cache = &cache;
+                    s.spawn(move || {
+                        std::panic::catch_unwind(std::panic::AssertUnwindSafe(|| {
+                            let mut ok = cache.contains::<Bomb>("k") && cache.get_cached::<Bomb>("k").is_some();
+                            for i in 0..40 {
+                                let id = format!("other{t}.{i}");
+                                ok &= *cache.get_or_insert::<u8>(&id, i as u8).read() == i as u8 && cache.contains::<u8>(&id);
+                            }
+                            ok
+                        }))
+                        .unwrap_or(false)
+                    })
+                })
+                .collect();
+            hs.into_iter().all(|h| h.join().unwrap_or(false))
+        });
+        BOMBS_ARMED.store(false, SeqCst);
+        let winners: BTreeSet<u64> = outcomes.iter().filter_map(|o| o.as_ref().ok().copied()).collect();
+        let scen = json!({"kind": "loser of a creation race panics in its destructor", "round": round, "threads": nthreads,
+            "destructors_that_panicked": went_off, "calls_that_returned": outcomes.iter().filter(|o| o.is_ok()).count()});
+        if !usable {
+            rep.violation("cache-unusable", "C01/cache-unusable-after-loser-destructor-panic", json!({"what": "contains / get_cached / get_or_insert panicked or gave wrong answers afterwards"}), scen.clone());
+        }
+        if winners.len() > 1 {
+            rep.violation("different-winners", "C01/different-handles-for-one-key", json!({"values_seen": winners}), scen.clone());
+        }
+        if went_off > 0 {
+            rep.count("rounds_with_a_panicking_loser", 1);
+            rep.nontrivial(mix(0xb0b, round as u64));
+        }
+        drop(cache);
+    }
+    crate::util::quiet_panics(false);
+}
+
 pub fn run(args: &Args) -> Report {
     let mut rep = Report::new(args);
     rep.rule = "rounds of N in 2..16 threads doing load / get_cached / get_or_insert / contains through AssetCache and \
@@ -582,6 +668,7 @@ pub fn run(args: &Args) -> Report {
         long_lived(&mut rep, &mut rng, round);
         rep.nontrivial(mix(0x11, round as u64));
     }
+    loser_destructor_panics(&mut rep, if miri { 2 } else { args.n(60, 600) });
     let il = rep.n_interleavings();
     rep.count("distinct_interleavings", il);
     let _ = fnv_str;
